@@ -126,7 +126,7 @@ func C20(c *Ctx) {
 
 	// R20.2
 	if pe := c.fn("R20.2", "pkg/order/etcdraft.(*Node).publishEntries"); pe != nil {
-		skip := condEdges(pe, func(f core.Fact, ifi *ssa.If) (bool, int) {
+		skipPick := func(f core.Fact, ifi *ssa.If) (bool, int) {
 			bo, ok := ifi.Cond.(*ssa.BinOp)
 			if !ok {
 				return false, 0
@@ -147,8 +147,8 @@ func C20(c *Ctx) {
 				return true, 0
 			}
 			return false, 0
-		})
-		n := c.behindEdges("R20.2", "publishEntries", pe, skip, func(in ssa.Instruction) bool {
+		}
+		n := c.behindEdgesDeep("R20.2", "publishEntries", pe, skipPick, func(in ssa.Instruction) bool {
 			call, ok := in.(ssa.CallInstruction)
 			return ok && strings.HasSuffix(core.CalleeName(call), ".mint")
 		}, "recorded applied index < entry index", "mint")
@@ -212,24 +212,13 @@ func C20(c *Ctx) {
 			}
 			return core.Mentions(core.Arg(call, 0), fieldNamed("lastExec"))
 		}
-		n := c.behindEdges("R20.3", "listenRaftMsg", lr, jeEdges(lr), isReset, "justElected", "SetBatchSeqNo(lastExec)")
-		// or in a helper of the node that the Ready handling calls: the reset lies behind justElected there, or
-		// every call of the helper lies behind justElected
-		for _, call := range core.Calls(lr) {
-			g := core.StaticCallee(call)
-			if g == nil || g == lr || len(g.Blocks) == 0 || core.PkgOf(g) != core.PkgOf(lr) || len(sites(g, isReset)) == 0 {
-				continue
+		_ = jeEdges
+		n := c.behindEdgesDeep("R20.3", "listenRaftMsg", lr, func(f core.Fact, ifi *ssa.If) (bool, int) {
+			if f.Kind == core.FBool && f.Field == "justElected" {
+				return true, holdsEdge(f)
 			}
-			if je := jeEdges(g); je.Len() > 0 {
-				n += c.behindEdges("R20.3", shortFn(g), g, je, isReset, "justElected", "SetBatchSeqNo(lastExec)")
-				continue
-			}
-			isCallG := func(in ssa.Instruction) bool {
-				cc, ok := in.(ssa.CallInstruction)
-				return ok && core.StaticCallee(cc) == g
-			}
-			n += c.behindEdges("R20.3", "listenRaftMsg", lr, jeEdges(lr), isCallG, "justElected", shortFn(g)+" (which resets the batch sequence number to lastExec)")
-		}
+			return false, 0
+		}, isReset, "justElected", "SetBatchSeqNo(lastExec)")
 		r.Floor("R20.3", "leader reset sites", n, 1)
 	}
 	// the reset is effective: SetBatchSeqNo stores its argument on every path (a lower value too - a re-elected
@@ -368,9 +357,33 @@ func C20(c *Ctx) {
 
 	// R20.6 commit notification
 	if rsf := c.fn("R20.6", "pkg/order/etcdraft.(*Node).reportState"); rsf != nil {
-		isCommit := func(in ssa.Instruction) bool {
+		isCommitCall := func(in ssa.Instruction) bool {
 			call, ok := in.(ssa.CallInstruction)
 			return ok && core.CalleeObj(call) != nil && core.CalleeObj(call).Name() == "CommitTransactions"
+		}
+		// also a helper of the node that commits on every one of its paths (the stateC case extracted into a method)
+		isCommit := func(in ssa.Instruction) bool {
+			if isCommitCall(in) {
+				return true
+			}
+			call, ok := in.(ssa.CallInstruction)
+			if !ok {
+				return false
+			}
+			h := core.StaticCallee(call)
+			if h == nil || len(h.Blocks) == 0 || core.PkgOf(h) != core.PkgOf(in.Parent()) || h.Parent() != nil {
+				return false
+			}
+			if len(sites(h, isCommitCall)) == 0 {
+				return false
+			}
+			rs := core.Reach([]core.Point{core.EntryOf(h)}, isCommitCall, nil)
+			for _, ret := range core.Returns(h) {
+				if rs.Has(ret) {
+					return false
+				}
+			}
+			return true
 		}
 		rs := core.Reach([]core.Point{core.EntryOf(rsf)}, isCommit, nil)
 		var bad *ssa.Return
@@ -411,7 +424,11 @@ func C20(c *Ctx) {
 		// and the recorded pair is (minted height, entry index)
 		if pe := c.fn("R20.4", "pkg/order/etcdraft.(*Node).publishEntries"); pe != nil {
 			n := 0
-			for _, call := range core.Calls(pe) {
+			var peCalls []ssa.CallInstruction
+			for _, rf := range c.regionOf(pe, 2) {
+				peCalls = append(peCalls, core.Calls(rf.fn)...)
+			}
+			for _, call := range peCalls {
 				if core.CalleeName(call) != "(*sync.Map).Store" || !core.Mentions(call.Common().Args[0], fieldNamed("blockAppliedIndex")) {
 					continue
 				}
@@ -425,9 +442,30 @@ func C20(c *Ctx) {
 		}
 	}
 	if sl := c.fn("R20.6", "pkg/order/solo.(*Node).listenReadyBlock"); sl != nil {
-		isCommit := func(in ssa.Instruction) bool {
+		isCommitCall := func(in ssa.Instruction) bool {
 			call, ok := in.(ssa.CallInstruction)
 			return ok && core.CalleeObj(call) != nil && core.CalleeObj(call).Name() == "CommitTransactions"
+		}
+		// also a helper of the node that commits on every one of its paths (the stateC case extracted into a method)
+		isCommit := func(in ssa.Instruction) bool {
+			if isCommitCall(in) {
+				return true
+			}
+			call, ok := in.(ssa.CallInstruction)
+			if !ok {
+				return false
+			}
+			h := core.StaticCallee(call)
+			if h == nil || len(h.Blocks) == 0 || core.PkgOf(h) != core.PkgOf(sl) || h.Parent() != nil || len(sites(h, isCommitCall)) == 0 {
+				return false
+			}
+			rs := core.Reach([]core.Point{core.EntryOf(h)}, isCommitCall, nil)
+			for _, ret := range core.Returns(h) {
+				if rs.Has(ret) {
+					return false
+				}
+			}
+			return true
 		}
 		// from the stateC receive (select case) every path back to the loop head passes CommitTransactions
 		ok := false
@@ -544,7 +582,19 @@ func (c *Ctx) c20SyncRanges() {
 		return
 	}
 	n := 0
-	for _, call := range core.Calls(fn) {
+	top := fn
+	type rcall struct {
+		f    *ssa.Function
+		call ssa.CallInstruction
+	}
+	var rcalls []rcall
+	for _, rf := range c.regionOf(top, 2) {
+		for _, call := range core.Calls(rf.fn) {
+			rcalls = append(rcalls, rcall{rf.fn, call})
+		}
+	}
+	for _, rc := range rcalls {
+		call, fn := rc.call, rc.f
 		cl, ok := call.(*ssa.Call)
 		if !ok || !strings.HasSuffix(core.CalleeName(call), "retry.Retry") {
 			continue
